@@ -174,7 +174,7 @@ def one_case(c, rng, tmp):
         import concurrent.futures as cf
         pool = cf.ThreadPoolExecutor(2)
         extra["executor"] = pool
-    combos = sw.combos_arg(rng) if sw.combos else None
+    combos = sw.combos_arg(rng, iterators=True) if sw.combos else None      # values may be one-shot iterables
     cases_t = [tuple(cc) for cc in sw.cases]
     # a single case argument may be given as bare values (also strings) and as a bare name
     bare = len(sw.case_args) == 1 and rng.random() < 0.5
